@@ -45,6 +45,24 @@ def html_unescape_attr(v):
     return v
 
 
+# style attribute values: "keep only allowed properties/keywords and never url()" (sanitize_css is not in the Coq
+# model; this clause is decided on the implementation's output only)
+CSS_PROPS = ["color", "background", "background-color", "background-image", "border", "border-left", "margin", "padding",
+             "cursor", "font-family", "width", "fill", "stroke", "list-style-image", "behavior", "-moz-binding", "position",
+             "COLOR", "Cursor", "content", "x", "float", "clip-path", "marker-start"]
+CSS_VALUES = ["red", "#fff", "1px", "1px solid red", "rgb(1,2,3)", "url(x)", "URL(1)", "Url(http://a/b)", "uRl( 1 )", "url\t(1)",
+              "ururl(x)l(1)", "uurl(a)rl(12,3)", "urlurl(x)(1)", "URL(javascript:alert(1))", "expression(alert(1))", "auto", "none",
+              "'a b'", "\"x\"", "1em 2em", "transparent", "inherit", "url(1", "URL (1)", "(1)", "u\\72l(1)", "!important", "a-b",
+              "url(1)url(2)", "UrL(12,3) red", ""]
+
+
+def rnd_style(rng):
+    decls = []
+    for _ in range(rng.randint(1, 3)):
+        decls.append(rng.choice(CSS_PROPS) + rng.choice([":", ": ", " : "]) + rng.choice(CSS_VALUES))
+    return rng.choice(["; ", ";", " ;"]).join(decls) + rng.choice(["", ";"])
+
+
 class C09(Plugin):
     id = "C09"
     gen = ["Sanitizer", "Consts", "Sax"]
@@ -73,6 +91,9 @@ class C09(Plugin):
         import html5lib
         for _ in range(n):
             r = rng.random()
+            if rng.random() < 0.12:
+                yield {"k": 6, "s": rnd_style(rng)}
+                continue
             if r < 0.25:
                 v = rng.choice(SCHEMES) + rng.choice([":", ":", ":", "", "&#58;", "\t:", ": "]) + rng.choice(RESTS)
                 yield {"k": 2, "s": v}
@@ -137,6 +158,8 @@ class C09(Plugin):
             if "[" in v or "]" in v or any(ord(c) > 127 for c in v.split(":", 1)[-1]):
                 return None
             return [2, v]
+        if k == 6:
+            return None           # sanitize_css is not in the model
         return [k, case["s"]]
 
     def _filter(self, toks, lists=None):
@@ -164,6 +187,10 @@ class C09(Plugin):
             t = {"type": "StartTag", "namespace": SVG, "name": "rect", "data": {(None, "fill"): case["s"]}}
             out = self._filter([from_json(to_json(t))])
             return out[0]["data"].get((None, "fill"), "\x00missing")
+        if k == 6:
+            t = {"type": "StartTag", "namespace": HTML, "name": "p", "data": {(None, "style"): case["s"]}}
+            out = self._filter([from_json(to_json(t))])
+            return [out[0]["data"].get((None, "style"), "")]
         if k == 5:
             from html5lib.filters.sanitizer import data_content_type
             m = data_content_type.match(case["s"])
@@ -185,6 +212,16 @@ class C09(Plugin):
                     ct = m.group(1).strip().lower() if m else ""
                     if ct not in S.allowed_content_types:
                         v.append(("forbidden-data-content-type-kept", repr((case["s"], ct))))
+            return v
+        if k == 6:
+            val = out[0]
+            if re.search(r"(?i)url\(", val):
+                v.append(("css-url-kept", repr((case["s"], val))))
+            for prop, value in re.findall(r"([-\w]+)\s*:\s*([^:;]*)", val):
+                pl = prop.lower()
+                if not (pl in S.allowed_css_properties or pl in S.allowed_svg_properties or
+                        pl.split("-")[0] in ("background", "border", "margin", "padding")):
+                    v.append(("css-property-not-allowed-kept", repr((case["s"], val))))
             return v
         if k in (0, 1):
             ls = case.get("lists")
